@@ -52,8 +52,45 @@ def nested(depth, close=True, kind=b'VEVENT'):
     return b'\r\n'.join(out) + b'\r\n'
 
 
+def boundary_lines():
+    """values at and just beyond the limits of the Python types the decoders build (timedelta +-999999999 days,
+    datetime years 1..9999, time zone arithmetic at both ends), with every sign and unit"""
+    out = []
+    for sign in (b'', b'-', b'+'):
+        for body in (b'P999999999D', b'P999999999DT1S', b'P999999999DT23H59M59S', b'P999999999DT24H', b'P1000000000D',
+                     b'P142857142W', b'P142857142W6D', b'P142857142W6DT1S', b'P142857143W', b'PT86399999913600S',
+                     b'PT86399999999999S', b'PT86400000000000S', b'PT1440000000000M', b'PT24000000000H', b'P0DT0H0M0S'):
+            out.append(sign + body)
+    lines = []
+    for d in out:
+        lines += [b'DURATION:' + d, b'TRIGGER:' + d, b'REFRESH-INTERVAL;VALUE=DURATION:' + d,
+                  b'FREEBUSY:20200101T000000Z/' + d, b'FREEBUSY:00010101T000000Z/' + d, b'FREEBUSY:99991231T235959Z/' + d,
+                  b'RDATE;VALUE=PERIOD:00010101T000000/' + d, b'RDATE;VALUE=PERIOD:99991231T235959/' + d]
+    for t in (b'00010101T000000', b'00010101T000001', b'99991231T235959', b'99991231T000000', b'00010102T000000', b'99991230T235959'):
+        for z in (b'Europe/Berlin', b'America/New_York', b'Pacific/Kiritimati', b'Pacific/Pago_Pago', b'UTC', b'Asia/Kolkata'):
+            for name in (b'DTSTART', b'DTEND', b'DUE', b'RECURRENCE-ID', b'RDATE', b'EXDATE'):
+                lines.append(name + b';TZID=' + z + b':' + t)
+        lines += [b'DTSTART:' + t + b'Z', b'DTSTAMP:' + t + b'Z', b'CREATED:' + t, b'RRULE:FREQ=DAILY;UNTIL=' + t + b'Z',
+                  b'TRIGGER;VALUE=DATE-TIME:' + t + b'Z', b'FREEBUSY:' + t + b'Z/' + t + b'Z', b'RDATE;VALUE=DATE:' + t[:8]]
+    for o in (b'+2359', b'-2359', b'+235959', b'-235959', b'+2400', b'-2400', b'+0000', b'-0000', b'+9959'):
+        lines += [b'TZOFFSETFROM:' + o, b'TZOFFSETTO:' + o]
+    return lines
+
+
+def boundary_inputs():
+    for ln in boundary_lines():
+        for kind in (b'VTODO', b'VEVENT', b'VFREEBUSY', b'VALARM', b'STANDARD'):
+            yield b'BEGIN:VCALENDAR\r\nBEGIN:' + kind + b'\r\n' + ln + b'\r\nEND:' + kind + b'\r\nEND:VCALENDAR\r\n'
+
+
 def inputs(ctx):
     rng = ctx.rng
+    bl = list(boundary_inputs())
+    for data in (bl if (ctx.tier == 'thorough' or ctx.escalate) else rng.sample(bl, 700)):
+        yield data
+    # the witnesses of repaired defects, always
+    for ln in (b'DURATION:-P999999999DT1S', b'TRIGGER:-P999999999DT0H0M1S', b'FREEBUSY:20200101T000000Z/-P999999999DT1S'):
+        yield b'BEGIN:VCALENDAR\r\nBEGIN:VTODO\r\n' + ln + b'\r\nEND:VTODO\r\nEND:VCALENDAR\r\n'
     for d in (1, 2, 8, 33, 64):
         yield nested(d)
         yield nested(d, close=False)
